@@ -661,7 +661,7 @@ impl Bindgen for FunctionBindgen<'_, '_> {
                 } else {
                     let op0 = operands.pop().unwrap();
                     self.push_str(&format!(
-                        "let {val} = <_ as Into<{vec}<_>>>::into({op0}).into_boxed_slice();\n"
+                        "let {val} = <_ as ::core::convert::Into<{vec}<_>>>::into({op0}).into_boxed_slice();\n"
                     ));
                 }
                 self.push_str(&format!("let {ptr} = {val}.as_ptr().cast::<u8>();\n"));
